@@ -93,6 +93,7 @@ def run(ctx):
     n = 80 if ctx.tier == 'quick' else 600
     rng = random.Random('%d/c19' % ctx.seed)
     specs = util.corpus(ctx.prop) + [gen_case(rng, i) for i in range(n)]
+    specs = ctx.specs(specs)
     res = C.run_impl('grid', specs)
     exprs, owners = [], []
     for sp, o in zip(specs, res):
